@@ -13,9 +13,9 @@ RULE = ("(encoder level, exhaustive) for eco-mode v1 and v2 groups x every prior
         "of types 0..6 enabled/disabled, NOT_SET, undecodable) x 745 / non-745 platform x power 1..100 x SoC 0..100: the real "
         "read_value -> set_schedule_type -> encode_charge / encode_discharge bytes are decoded by a fresh group object and must give "
         "is_eco_charge/discharge_mode, power -/+p via get_power() and the SoC; (end to end, sampled) for ET (eco v1 / v2 / 745 "
-        "platform / peak shaving absent) and ES (v1 / v2 firmware) with random prior contents of all four groups: every mode of "
+        "platform / peak shaving absent) and ES (ARM 5 / ARM 14 without eco v2 / eco v2 firmware) with random prior contents of all four groups (partial month masks included), polls between setter calls: every mode of "
         "get_operation_modes(True) is set and read back, ECO_CHARGE/ECO_DISCHARGE additionally check group 1 and that groups 2-4 "
-        "are switched off; export limits and DoD values over their valid ranges round-trip (ET, DT single/three phase, ES); "
+        "are switched off; the same emulated mode again with the same power and another SoC; setters whose write the inverter refuses; export limits and DoD values over their valid ranges round-trip (ET, DT single/three phase, ES); "
         "distinct = distinct (family, variant, mode or setter, prior class / value class) tuples")
 ASSUMPTIONS = ["v1 groups carry no SoC and encode_discharge takes none: SoC is asserted for v2 ECO_CHARGE only",
                "a limit whose encoding is the all-ones 'no value' sentinel (65535) is outside the readable domain",
